@@ -15,13 +15,60 @@ FUNCS = {'sin', 'cos', 'tan', 'asin', 'acos', 'atan', 'atan2', 'abs', 'min', 'ma
          'trunc', 'exp', 'ln', 'hypot', 'powf', 'powi', 'rem'}
 
 
+DEFAULT_FIELD_DIV = True
+
+
+def strict_key(S, tid, memo=None):
+    """Structural canonical form of a term: only a+b = b+a and a*b = b*a are identified (DESIGN §2, rule K6)."""
+    if memo is None:
+        memo = {}
+    k = memo.get(tid)
+    if k is not None:
+        return k
+    t = S.terms[tid]
+    if t[0] == 'a':
+        ks = [strict_key(S, x, memo) for x in t[2]]
+        if t[1] in ('add', 'mul'):
+            ks = sorted(ks, key=repr)
+        k = (t[1],) + tuple(ks)
+    elif t[0] == 'f':
+        k = ('f', t[1])
+    else:
+        k = (t[0], t[1])
+    memo[tid] = k
+    return k
+
+
+def strict_leaves(S, v, out=None, memo=None):
+    """leaves of a JSON value as strict keys"""
+    if out is None:
+        out = []
+    if memo is None:
+        memo = {}
+    if 'a' in v:
+        for x in v['a']:
+            strict_leaves(S, x, out, memo)
+    elif 't' in v:
+        out.append(strict_key(S, v['t'], memo))
+    elif 'e' in v:
+        out.append(('enum', v['e']))
+        for x in v['f']:
+            strict_leaves(S, x, out, memo)
+    elif 'r' in v:
+        strict_leaves(S, v['r']['val'], out, memo)
+    else:
+        out.append(('lit', json.dumps(v, sort_keys=True)))
+    return out
+
+
 class Conv:
     """Converts engine terms of one Summaries object into algebra elements."""
 
-    def __init__(self, S, env=None):
+    def __init__(self, S, env=None, field_div=None):
         self.S = S
         self.env = env or {}
         self.memo = {}
+        self.field_div = DEFAULT_FIELD_DIV if field_div is None else field_div
 
     def el(self, tid):
         r = self.memo.get(tid)
@@ -48,6 +95,9 @@ class Conv:
                 r = self.el(args[0]) - self.el(args[1])
             elif op == 'mul':
                 r = self.el(args[0]) * self.el(args[1])
+            elif op == 'div' and not self.field_div:
+                # integer-capable code (S: BaseNum): x / y is NOT x * (1/y); keep the division uninterpreted
+                r = A.fn('idiv', self.el(args[0]), self.el(args[1]))
             elif op == 'div':
                 den = self.el(args[1])
                 if A.iszero(den):
@@ -349,12 +399,12 @@ def cmp_struct(run, S, name, got, exp, rule, where=None, tag='ret', hyp=None):
     return allok
 
 
-def check_value(run, S, name, expected, rule='K3 ring conformance', post=None, allow_panics=False):
+def check_value(run, S, name, expected, rule='K3 ring conformance', post=None, allow_panics=False, field_div=None):
     sr = single_ret(run, S, name, allow_panics)
     if sr is None:
         return False
     r, leaf = sr
-    cv = Conv(S)
+    cv = Conv(S, field_div=field_div)
     ok = True
     if expected is not None:
         ok = cmp_struct(run, S, name, cv.val(leaf['v']), expected, rule, where=r.get('span')) and ok
@@ -393,16 +443,16 @@ def bool_conjunction(S, out):
             return None
 
 
-def forms4(h, name, g, Ta, Tb, Tr, op, exp):
+def forms4(h, name, g, Ta, Tb, Tr, op, exp, **kw):
     """the four by-value / by-reference spellings of a binary operator"""
     for form, la, lb in (('vv', Ta, Tb), ('vr', Ta, '&' + Tb), ('rv', '&' + Ta, Tb), ('rr', '&' + Ta, '&' + Tb)):
-        h.root('%s__%s' % (name, form), '%s(a: %s, b: %s) -> %s' % (g, la, lb, Tr), 'a %s b' % op, ('value', exp))
+        h.root('%s__%s' % (name, form), '%s(a: %s, b: %s) -> %s' % (g, la, lb, Tr), 'a %s b' % op, ('value', exp), **kw)
 
 
-def forms2(h, name, g, Ta, Tb, Tr, op, exp):
+def forms2(h, name, g, Ta, Tb, Tr, op, exp, **kw):
     """by-value / by-reference receiver with a by-value right operand"""
     for form, la in (('v', Ta), ('r', '&' + Ta)):
-        h.root('%s__%s' % (name, form), '%s(a: %s, b: %s) -> %s' % (g, la, Tb, Tr), 'a %s b' % op, ('value', exp))
+        h.root('%s__%s' % (name, form), '%s(a: %s, b: %s) -> %s' % (g, la, Tb, Tr), 'a %s b' % op, ('value', exp), **kw)
 
 
 def all_panic(run, S, name, rule='K5 out-of-range index panics'):
@@ -430,9 +480,9 @@ def _run_one(run, S, name, spec, kw, custom):
     if True:
         kind = spec[0]
         if kind == 'value':
-            check_value(run, S, name, spec[1], rule=kw.get('rule', 'K3 ring conformance'))
+            check_value(run, S, name, spec[1], rule=kw.get('rule', 'K3 ring conformance'), field_div=kw.get('field_div'))
         elif kind == 'post':
-            check_value(run, S, name, spec[2] if len(spec) > 2 else None, post=spec[1], rule=kw.get('rule', 'K3 ring conformance'))
+            check_value(run, S, name, spec[2] if len(spec) > 2 else None, post=spec[1], rule=kw.get('rule', 'K3 ring conformance'), field_div=kw.get('field_div'))
         elif kind == 'panic':
             all_panic(run, S, name)
         elif custom and kind in custom:
